@@ -9,6 +9,7 @@
 import GM.Props.C02c
 import GM.Props.Consts.Parser
 import GM.Props.C02Emph
+import GM.Props.C02Frag
 
 namespace GM.Props.C02
 open GM GM.Spec.CM
@@ -75,5 +76,59 @@ theorem emph_html_text : type_of% @GM.Props.C02Emph.emph_html_text := @GM.Props.
     closer can also open, closer length mod 3.  More generally (`Proof.CMEmphMemo.parseM_eq`) for every key that
     determines which openers a closer may take. -/
 theorem emph_openers_bottom_is_optimisation : type_of% @GM.Props.C02Emph.openers_bottom_is_optimisation := @GM.Props.C02Emph.openers_bottom_is_optimisation
+
+/-- (re-export of `GM.Props.C02Frag.fragment_conforms`) **Conformance on the fragment (stages 1–3).** For EVERY document `d` of the fragment — any number of
+    paragraphs, each a non-empty sequence of lines; a line is a non-empty run of printable ASCII characters in any
+    licensed spelling (literal, backslash escape, decimal / hexadecimal character reference with leading zeros,
+    named entity) that starts with a literal letter, ends with a literal letter or digit and has no literal `!`;
+    `gap` extra blank lines in front of every paragraph, `trail` blank lines at the end — and for every assignment
+    `uc` of Unicode classes (irrelevant here: the source is ASCII), the model of goldmark's `Convert` on the
+    Markdown source `spellF d` returns, without error, exactly the prescribed HTML `expectedF d`: every paragraph
+    `<p>`…`</p>` + newline, its lines joined by a newline (soft line break), `& < > "` escaped. -/
+theorem fragment_conforms : type_of% @GM.Props.C02Frag.fragment_conforms := @GM.Props.C02Frag.fragment_conforms
+
+/-- (re-export of `GM.Props.C02Frag.fragment4_conforms`) **Conformance on the stage-4 fragment.** For EVERY document `d` whose blocks are paragraphs (as above), ATX
+    headings (`#`…`######`, one space, a line of fragment text, no closing sequence) and thematic breaks (three or
+    more `*`, `-` or `_`), every two blocks separated by at least one blank line (so `---` never stands directly
+    under a paragraph: no setext reading), with any number of further blank lines in front, between and behind: the
+    model of goldmark's `Convert` on the source `spellG d` returns exactly the prescribed HTML `expectedG d`
+    (`<hN>`text`</hN>`, `<hr />`, `<p>`…`</p>`). -/
+theorem fragment4_conforms : type_of% @GM.Props.C02Frag.fragment4_conforms := @GM.Props.C02Frag.fragment4_conforms
+
+/-- (re-export of `GM.Props.C02Frag.fragment5_conforms`) **Conformance on the stage-5 fragment.** For EVERY document `d` whose blocks are paragraphs, ATX headings, thematic
+    breaks (as in stage 4) and FENCED CODE BLOCKS — an opening fence of 3+n backticks or tildes directly followed by an
+    info string of letters and digits (possibly empty), any number of content lines of printable ASCII characters
+    that are empty or start with a character that is neither a space nor the fence character, a closing fence of the
+    same characters and length — blocks separated by at least one blank line: the model of goldmark's `Convert` on
+    `spellH d` returns exactly the prescribed HTML `expectedH d` (`<pre><code class="language-INFO">` + the content
+    lines, HTML-escaped, each with its line feed + `</code></pre>`). -/
+theorem fragment5_conforms : type_of% @GM.Props.C02Frag.fragment5_conforms := @GM.Props.C02Frag.fragment5_conforms
+
+/-- (re-export of `GM.Props.C02Frag.fragment6_conforms`) **Conformance on the stage-6 fragment.** For EVERY document `d` of paragraphs, ATX headings, thematic breaks and
+    fenced code blocks (as in stage 5) in which a block may follow the previous one WITHOUT a blank line wherever the
+    specification allows that for these blocks — behind an ATX heading, a thematic break or a closed fence: any block;
+    behind a paragraph: an ATX heading, a fenced code block, a thematic break of `*` or `_` (not a further text line:
+    continuation; not `---`: setext underline) — and otherwise any number of blank lines between, in front and
+    behind: the model of goldmark's `Convert` on `spellK d` returns exactly the prescribed HTML `expectedK d`. -/
+theorem fragment6_conforms : type_of% @GM.Props.C02Frag.fragment6_conforms := @GM.Props.C02Frag.fragment6_conforms
+
+/-- (re-export of `GM.Props.C02Frag.fragment6_conforms_spec`) **Stage-6 conformance stated on the spec model itself**, including its choice "no blank line before this block". -/
+theorem fragment6_conforms_spec : type_of% @GM.Props.C02Frag.fragment6_conforms_spec := @GM.Props.C02Frag.fragment6_conforms_spec
+
+/-- (re-export of `GM.Props.C02Frag.plain_line_conforms`) **Stage 1 in bytes.** One line of plain text (letters, digits, spaces — also several in a row — starting with a
+    letter and ending with a letter or digit) followed by a line feed is converted to `<p>`, the same bytes, `</p>`,
+    line feed. -/
+theorem plain_line_conforms : type_of% @GM.Props.C02Frag.plain_line_conforms := @GM.Props.C02Frag.plain_line_conforms
+
+/-- (re-export of `GM.Props.C02Frag.fragment_block_phase`) **Block phase on the fragment.** The block phase (`parser.parseBlocks` with the link-reference paragraph
+    transformer and its run-time check) on the source of a fragment document ends normally — no Go panic, no
+    contract monitor, fuel suffices — and leaves the Document with exactly one closed Paragraph per paragraph of
+    the document (lines = the source lines, the last one without its line feed) and an empty reference map. -/
+theorem fragment_block_phase : type_of% @GM.Props.C02Frag.fragment_block_phase := @GM.Props.C02Frag.fragment_block_phase
+
+/-- (re-export of `GM.Props.C02Frag.inline_phase_quiet_lines`) **Inline phase on quiet lines.** For a paragraph whose source lines are non-empty, contain no line feed, never
+    make the byte loop of `parseBlock` consult an inline parser (`quiet`) and end neither in white space nor in a
+    backslash, the inline phase yields exactly one Text node per line, with a soft line break on all but the last. -/
+theorem inline_phase_quiet_lines : type_of% @GM.Props.C02Frag.inline_phase_quiet_lines := @GM.Props.C02Frag.inline_phase_quiet_lines
 
 end GM.Props.C02
